@@ -222,7 +222,19 @@ fn hand_plan(rng: &mut Rng, s: &[TableDef], version: u32) -> Option<MigrationPla
         let ti = rng.below(cur.len());
         let t = cur[ti].clone();
         let colnames: Vec<String> = t.columns.iter().map(|c| c.name.clone()).collect();
-        let a: Option<MigrationAction> = match rng.below(12) {
+        let a: Option<MigrationAction> = match rng.below(14) {
+            12 | 13 => {
+                // AddColumn: any combination of nullable x default x fill_with
+                let name = rng.pick(&["added", "extra", "note2"]).to_string();
+                if colnames.contains(&name) { None } else {
+                    let (ty, dv, fv) = rng.pick(&addcol_types()).clone();
+                    let mut c = gener::col(&name, ty, rng.chance(1, 2));
+                    if rng.chance(1, 2) {
+                        c.default = Some(dv);
+                    }
+                    Some(MigrationAction::AddColumn { table: t.name.clone(), column: Box::new(c), fill_with: if rng.chance(1, 2) { Some(fv) } else { None } })
+                }
+            }
             0 => {
                 let to = rng.pick(&["renamed", "t2", "account", "item2", "a_b2"]).to_string();
                 if cur.iter().any(|x| x.name == to) { None } else { Some(MigrationAction::RenameTable { from: t.name.clone(), to }) }
@@ -512,6 +524,50 @@ fn autokey_history(rng: &mut Rng, fixed: Option<&[ColumnType]>) -> Vec<Migration
     history
 }
 
+/// E. a hand-written AddColumn on the fixed shape for one combination of nullable x default x fill_with (the planner +
+/// revision only ever write fill_with for NOT NULL columns without a default), followed by a comment change of the new
+/// column (its MODIFY must restate what the ADD COLUMN sequence left).
+fn addcol_history(rng: &mut Rng, ty: &ColumnType, nullable: bool, default: Option<DefaultValue>, fill: Option<String>) -> Vec<MigrationPlan> {
+    let mut history = vec![];
+    let auto = rng.chance(1, 2);
+    let base = modseq_base(rng, auto);
+    if !gener::loader_accepts(&base) || !grow(&mut history, &base) {
+        return history;
+    }
+    let mut c = gener::col("added", ty.clone(), nullable);
+    c.default = default;
+    let steps = vec![
+        MigrationAction::AddColumn { table: "t".into(), column: Box::new(c), fill_with: fill },
+        MigrationAction::ModifyColumnComment { table: "t".into(), column: "added".into(), new_comment: Some("added by hand".into()) },
+    ];
+    for a in steps {
+        let p = mkplan(history.len() as u32 + 1, vec![a]);
+        if validate_migration_plan(&p).is_err() {
+            break;
+        }
+        let mut h2 = history.clone();
+        h2.push(p);
+        if schema_from_plans(&h2).is_err() {
+            break;
+        }
+        history = h2;
+    }
+    history
+}
+
+/// (type, a default literal, a fill literal different from the default)
+fn addcol_types() -> Vec<(ColumnType, DefaultValue, String)> {
+    vec![
+        (ColumnType::Simple(SimpleColumnType::Integer), DefaultValue::Integer(0), "7".to_string()),
+        (ColumnType::Complex(ComplexColumnType::Varchar { length: 20 }), DefaultValue::String("'new'".into()), "'legacy'".to_string()),
+        (ColumnType::Simple(SimpleColumnType::Text), DefaultValue::String("'x'".into()), "''".to_string()),
+        (ColumnType::Simple(SimpleColumnType::Boolean), DefaultValue::Bool(false), "true".to_string()),
+        (ColumnType::Complex(ComplexColumnType::Enum { name: "status".into(), values: EnumValues::String(vec!["active".into(), "inactive".into()]) }),
+         DefaultValue::String("'active'".into()), "'inactive'".to_string()),
+        (ColumnType::Complex(ComplexColumnType::Numeric { precision: 10, scale: 2 }), DefaultValue::Integer(0), "1.5".to_string()),
+    ]
+}
+
 fn pick_column(rng: &mut Rng, m: &[TableDef], want_key: bool) -> Option<(String, String, bool)> {
     let mut cands = vec![];
     for t in m {
@@ -705,6 +761,19 @@ fn main() {
             let h = autokey_history(&mut rng, None);
             emit_history(&mut out, "autokey", hist, &h);
             hist += 1;
+        }
+    }
+
+    // E. AddColumn: nullable x default x fill_with, plain and enum types (every combination, every run)
+    for (ty, dv, fv) in addcol_types() {
+        for nullable in [false, true] {
+            for with_default in [false, true] {
+                for with_fill in [false, true] {
+                    let h = addcol_history(&mut rng, &ty, nullable, if with_default { Some(dv.clone()) } else { None }, if with_fill { Some(fv.clone()) } else { None });
+                    emit_history(&mut out, "addcol", hist, &h);
+                    hist += 1;
+                }
+            }
         }
     }
 
